@@ -176,6 +176,13 @@ func (c *DriveCtx) account(res *Result) {
 			}
 		}
 	}
+	c.flush(res)
+}
+
+// flush records violations added to the run after Exec returned (post-run oracles).
+func (c *DriveCtx) flush(res *Result) {
+	o := c.Out
+	res.Viol = res.Sim.Viol
 	for _, vio := range res.Viol {
 		if vio.Property != c.P.ID {
 			o.Other[vio.Sig()]++
